@@ -225,6 +225,7 @@ func propC08(w *World, r *Report) {
 	e := newTermEnv(w)
 	bg := d.leaf("background")
 	// N1
+	checkDetectorParamsImmutable(w, r, d, "N1", "start", "rowStop", "columnStop") // the bounds below are symbolic constants
 	nReads := 0
 	for _, fn := range d.Funcs {
 		n := 0
@@ -277,6 +278,9 @@ func propC08(w *World, r *Report) {
 							fmt.Sprintf("row [%s,%s], cols [%s:%s)", srow.lo, srow.hi, lo.lo, hi.hi))
 					case dst.lo == nil && src.lo == nil && dstBg && srcBg:
 						r.Check(srow.within(linS, linR1), "N2", name+" replicates an interior background row into a background border row", w.InstrPos(call), fmt.Sprintf("source row [%s,%s]", srow.lo, srow.hi))
+					case dst.lo == nil && src.lo == nil && dst.row == src.row && func() bool { _, _, ok := handWrittenFrameCopy(fn); return ok }():
+						// Frame.Copy written out by hand: whole rows, same row on both sides (position preserving)
+						r.Pass("N2", name+" is the row copy of a hand-written frame copy (same row on both sides)", w.InstrPos(call), "")
 					default:
 						r.Fail("N2", name, w.InstrPos(call), "whole-row copy that is neither a same-range interior copy nor background border replication", "")
 					}
@@ -549,6 +553,7 @@ func propC07(w *World, r *Report) {
 	e := newTermEnv(w)
 	T := d.leaf("tempThresh")
 	// K1
+	checkDetectorParamsImmutable(w, r, d, "K1", "start", "rowStop", "columnStop", "deltaThresh", "countThresh", "warmerOnly", "useOneDiff")
 	for _, fn := range []*ssa.Function{k.diffAbs, k.diffWarm, k.countOne, k.countTwo} {
 		n := 0
 		for _, a := range elemAccesses(fn) {
@@ -867,6 +872,10 @@ func checkPixelsChanged(w *World, r *Report, d *detInfo, k *kernels, fam string)
 			okPrefix = idx["cmp.Current"] < idx["copy-into-floor"] && idx["copy-into-floor"] < idx["cmp.Oldest"] && idx["cmp.Oldest"] < idx["defer cmp.Move"]
 			// kernel args: (floored current, compare frame, current diff slot)
 			okPrefix = okPrefix && len(diffCall.Call.Args) == 4 && sameFrame(diffCall.Call.Args[1], curFloor, copyCall) && diffCall.Call.Args[2] == cmpFrame && diffCall.Call.Args[3] == diffCur
+			// the copy goes FROM the input frame INTO the comparison ring's current slot
+			if cd, cs, okc := frameCopyOf(copyCall.Call.StaticCallee(), copyCall.Call.Args, 0); !okc || p.Origin(cd) != curFloor || !isParamOfFamily(p.Origin(cs)) {
+				okPrefix = false
+			}
 		}
 		r.Check(okPrefix, fam+"5", name+": frame copied into the comparison ring, compared with Oldest(), ring advanced afterwards, result into the current diff slot", pos, strings.Join(seq, " → "))
 		// K3 selection of the kernel
@@ -933,43 +942,57 @@ func hasGuardContaining(gs []Guard, condStr string, pos bool) bool {
 	return false
 }
 
-// isCopyInto: a call that copies the input frame into another frame: Frame.Copy, or a helper every path of which
-// passes a Frame.Copy call and which never stores into a frame's row table (that would alias the rows of the input
-// with the ring slot instead of copying them).
-func isCopyInto(callee *ssa.Function, call *ssa.Call) bool {
-	isCopy := func(in ssa.Instruction) bool {
-		c, ok := in.(*ssa.Call)
-		if !ok {
-			return false
+// frameCopyOf: does the call copy one frame's content (telemetry and every pixel) into another frame's own rows?
+// Recognised: cptvframe.Frame.Copy; a helper every path of which passes such a copy between two of its parameters and
+// which never assigns a frame's row table; a hand-written deep copy (dst.Status = src.Status and, for every row index
+// of the full range, copy(dst.Pix[i], src.Pix[i])). Returns the destination and source as values of the caller.
+func frameCopyOf(callee *ssa.Function, args []ssa.Value, depth int) (dst, src ssa.Value, ok bool) {
+	if callee == nil || depth > 2 {
+		return nil, nil, false
+	}
+	if callee.Name() == "Copy" && callee.Signature.Recv() != nil && typeIs(callee.Signature.Recv().Type(), "github.com/TheCacophonyProject/go-cptv/cptvframe", "Frame") && len(args) == 2 {
+		return args[0], args[1], true
+	}
+	if len(callee.Blocks) == 0 || len(args) != len(callee.Params) {
+		return nil, nil, false
+	}
+	paramIdx := func(v ssa.Value) int {
+		for i, p := range callee.Params {
+			if v == ssa.Value(p) {
+				return i
+			}
 		}
-		cc := c.Call.StaticCallee()
-		return cc != nil && cc.Name() == "Copy" && cc.Signature.Recv() != nil
+		return -1
 	}
-	if callee.Name() == "Copy" && callee.Signature.Recv() != nil {
-		return true
+	// hand-written deep copy
+	if d, sidx, ok := handWrittenFrameCopy(callee); ok {
+		return args[d], args[sidx], true
 	}
-	if len(callee.Blocks) == 0 {
-		return false
-	}
-	has := false
+	// wrapper: every path passes a frame copy between two parameters
+	di, si := -1, -1
 	copies := map[*ssa.BasicBlock]bool{}
 	for _, b := range callee.Blocks {
 		for _, in := range b.Instrs {
-			if isCopy(in) {
-				has = true
-				copies[b] = true
+			if c, isCall := in.(*ssa.Call); isCall {
+				if d, s0, ok := frameCopyOf(c.Call.StaticCallee(), c.Call.Args, depth+1); ok {
+					pd, ps := paramIdx(d), paramIdx(s0)
+					if pd < 0 || ps < 0 || di >= 0 && (pd != di || ps != si) {
+						return nil, nil, false
+					}
+					di, si = pd, ps
+					copies[b] = true
+				}
 			}
-			if st, ok := in.(*ssa.Store); ok {
-				if fa, ok := st.Addr.(*ssa.FieldAddr); ok && isPixField(fa) {
-					return false
+			if st, isSt := in.(*ssa.Store); isSt {
+				if fa, isFa := st.Addr.(*ssa.FieldAddr); isFa && isPixField(fa) {
+					return nil, nil, false
 				}
 			}
 		}
 	}
-	if !has {
-		return false
+	if di < 0 {
+		return nil, nil, false
 	}
-	// a return reachable without passing a copy?
 	seen := map[*ssa.BasicBlock]bool{}
 	var walk func(b *ssa.BasicBlock) bool
 	walk = func(b *ssa.BasicBlock) bool {
@@ -977,7 +1000,7 @@ func isCopyInto(callee *ssa.Function, call *ssa.Call) bool {
 			return false
 		}
 		seen[b] = true
-		if _, ok := b.Instrs[len(b.Instrs)-1].(*ssa.Return); ok {
+		if _, isRet := b.Instrs[len(b.Instrs)-1].(*ssa.Return); isRet {
 			return true
 		}
 		for _, s := range b.Succs {
@@ -987,7 +1010,115 @@ func isCopyInto(callee *ssa.Function, call *ssa.Call) bool {
 		}
 		return false
 	}
-	return !walk(callee.Blocks[0])
+	if walk(callee.Blocks[0]) {
+		return nil, nil, false // a return is reachable without the copy
+	}
+	return args[di], args[si], true
+}
+
+// handWrittenFrameCopy: fn is "dst.Status = src.Status; for i over all rows { copy(dst.Pix[i], src.Pix[i]) }" for two
+// of its parameters, with no other branching and no assignment of a row table.
+func handWrittenFrameCopy(fn *ssa.Function) (dstIdx, srcIdx int, ok bool) {
+	paramOf := func(v ssa.Value) int {
+		for i, p := range fn.Params {
+			if v == ssa.Value(p) {
+				return i
+			}
+		}
+		return -1
+	}
+	// row(v): v = *(&(*(&P.Pix))[i])  ->  (param index, i)
+	row := func(v ssa.Value) (int, ssa.Value) {
+		ld, ok := v.(*ssa.UnOp)
+		if !ok || ld.Op != token.MUL {
+			return -1, nil
+		}
+		ia, ok := ld.X.(*ssa.IndexAddr)
+		if !ok {
+			return -1, nil
+		}
+		tbl, ok := ia.X.(*ssa.UnOp)
+		if !ok || tbl.Op != token.MUL {
+			return -1, nil
+		}
+		fa, ok := tbl.X.(*ssa.FieldAddr)
+		if !ok || !isPixField(fa) {
+			return -1, nil
+		}
+		return paramOf(fa.X), ia.Index
+	}
+	nIf, nCopy, status := 0, 0, false
+	dstIdx, srcIdx = -1, -1
+	var copyBlock *ssa.BasicBlock
+	var idx ssa.Value
+	for _, b := range fn.Blocks {
+		for _, in := range b.Instrs {
+			switch x := in.(type) {
+			case *ssa.If:
+				nIf++
+			case *ssa.Store:
+				if fa, isFa := x.Addr.(*ssa.FieldAddr); isFa {
+					if isPixField(fa) {
+						return -1, -1, false
+					}
+					if structOf(fa.X.Type()) != nil && structOf(fa.X.Type()).Field(fa.Field).Name() == "Status" {
+						if ld, isLd := x.Val.(*ssa.UnOp); isLd {
+							if fs, isFs := ld.X.(*ssa.FieldAddr); isFs && structOf(fs.X.Type()).Field(fs.Field).Name() == "Status" && paramOf(fa.X) >= 0 && paramOf(fs.X) >= 0 {
+								dstIdx, srcIdx, status = paramOf(fa.X), paramOf(fs.X), true
+							}
+						}
+					}
+				}
+			case *ssa.Call:
+				if bi, isB := x.Call.Value.(*ssa.Builtin); isB && bi.Name() == "copy" {
+					pd, i1 := row(x.Call.Args[0])
+					ps, i2 := row(x.Call.Args[1])
+					if pd < 0 || ps < 0 || i1 != i2 {
+						return -1, -1, false
+					}
+					nCopy++
+					copyBlock, idx = b, i1
+					if status && (pd != dstIdx || ps != srcIdx) {
+						return -1, -1, false
+					}
+					dstIdx, srcIdx = pd, ps
+				} else if x.Call.StaticCallee() != nil && len(x.Call.StaticCallee().Blocks) > 0 {
+					return -1, -1, false
+				}
+			}
+		}
+	}
+	if !(status && nCopy == 1 && nIf == 1 && dstIdx != srcIdx && copyBlock != nil) {
+		return -1, -1, false
+	}
+	// the index is the loop's counter starting at 0 (range over the rows / i := 0; i < len(rows); i++)
+	zero := false
+	switch x := idx.(type) {
+	case *ssa.Phi:
+		for _, ed := range x.Edges {
+			if c, isC := ed.(*ssa.Const); isC && c.Value != nil && c.Value.ExactString() == "0" {
+				zero = true
+			}
+		}
+	case *ssa.BinOp:
+		// go/ssa's range loops: k = phi [-1, k+1]; the body uses k+1
+		if ph, isPhi := x.X.(*ssa.Phi); isPhi && x.Op == token.ADD {
+			if one, isC := x.Y.(*ssa.Const); isC && one.Value != nil && one.Value.ExactString() == "1" {
+				for _, ed := range ph.Edges {
+					if c, isC := ed.(*ssa.Const); isC && c.Value != nil && c.Value.ExactString() == "-1" {
+						zero = true
+					}
+				}
+			}
+		}
+	}
+	return dstIdx, srcIdx, zero
+}
+
+// isCopyInto: a call that copies a frame into another frame (see frameCopyOf).
+func isCopyInto(callee *ssa.Function, call *ssa.Call) bool {
+	_, _, ok := frameCopyOf(callee, call.Call.Args, 0)
+	return ok
 }
 
 func sameFrame(arg ssa.Value, cur ssa.Value, copyCall *ssa.Call) bool {
@@ -1099,4 +1230,10 @@ func checkThresholdInit(w *World, r *Report, d *detInfo, k *kernels, rule string
 		}
 	}
 	r.Check(init == "config.ThermalMotion.TempThresh"+cfgMotion, rule, "the threshold both values are raised to starts as the configured temp-thresh, unmodified", w.Pos(d.Ctor.Pos()), init)
+}
+
+// isParamOfFamily: v is a frame-typed parameter of the function it occurs in (the input frame handed down to a stage).
+func isParamOfFamily(v ssa.Value) bool {
+	p, ok := v.(*ssa.Parameter)
+	return ok && typeIs(p.Type(), "github.com/TheCacophonyProject/go-cptv/cptvframe", "Frame")
 }
